@@ -5,7 +5,7 @@ spec/machine/TraceMachine.tla  the clauses of C12 evaluated on recorded step-by-
 """
 from __future__ import annotations
 
-import json
+import json, re
 import random
 import sys
 from pathlib import Path
@@ -220,6 +220,23 @@ def run(cr: CheckRun) -> None:
             if res.invariant_violated:
                 raise MachineryError(f"Interrupts model ({name}) violates {res.invariant_violated}")
             tlc_expect_ok(res, cfg)
+            cr.add_tlc(cfg, res)
+    # liveness under weak fairness of the CPU (no state constraint, finite instance): a halted / powered-off CPU resumes, an owed
+    # request is served; the four readings (delivery phase x who acknowledges) in thorough, the two real machines' in quick
+    from concurrent.futures import ThreadPoolExecutor
+    live = ("end_ack", "start_fw") if quick else ("end_fw", "end_ack", "start_fw", "start_ack")
+    def _live(name):
+        cfg = f"MCInterrupts_live_{name}.cfg"
+        return cfg, run_tlc(SD, "MCInterrupts", cfg, workers=max(2, vlib.NCPU // len(live)), tag="C12-" + cfg, timeout=3400, heap="6g")
+    with ThreadPoolExecutor(len(live)) as ex:
+        for cfg, res in ex.map(_live, live):
+            if "Temporal property" in res.out and "was violated" in res.out:
+                raise MachineryError(f"Interrupts model violates a liveness property ({cfg}): " + re.findall(r"Temporal property (\w+) was violated", res.out)[0])
+            if res.invariant_violated:
+                raise MachineryError(f"Interrupts model ({cfg}) violates {res.invariant_violated}")
+            tlc_expect_ok(res, cfg)
+            if "Checking 6 branches of temporal properties for the complete state space" not in res.out and "temporal properties for the complete state space" not in res.out:
+                raise MachineryError(f"liveness was not checked on the complete state space ({cfg})")
             cr.add_tlc(cfg, res)
     cr.mark("tlc")
     # spec -> code: TLC behaviours of the abstract machine are schedules (instruction stream + events) for the real machines
